@@ -14,6 +14,8 @@
 
 use std::{collections::HashMap, fmt};
 
+use fixedbitset::FixedBitSet;
+
 pub use crate::{
     decoder_result::{DecoderResult, RestoredOriginal},
     encoder_result::{EncoderResult, Recovery},
@@ -319,7 +321,36 @@ where
     } else {
         // NO RECOVERY SHARDS
 
-        let original_received_count = original.count();
+        // Nothing can be restored, but the given shards still have to be
+        // valid: check them like `ReedSolomonDecoder` would, with shard
+        // size inferred from first original shard.
+        let mut original_received_count = 0;
+        let mut shard_bytes = None;
+        let mut received = FixedBitSet::with_capacity(original_count);
+
+        for (index, original) in original {
+            let got = original.as_ref().len();
+
+            let shard_bytes = *shard_bytes.get_or_insert(got);
+            if shard_bytes == 0 || shard_bytes & 1 != 0 {
+                return Err(Error::InvalidShardSize { shard_bytes });
+            }
+
+            if index >= original_count {
+                return Err(Error::InvalidOriginalShardIndex {
+                    original_count,
+                    index,
+                });
+            } else if received[index] {
+                return Err(Error::DuplicateOriginalShardIndex { index });
+            } else if got != shard_bytes {
+                return Err(Error::DifferentShardSize { shard_bytes, got });
+            }
+
+            received.set(index, true);
+            original_received_count += 1;
+        }
+
         if original_received_count == original_count {
             // Nothing to do, original data is complete.
             return Ok(HashMap::new());
